@@ -2,8 +2,9 @@
    C : any bound type with directed-rounding operations satisfying [CarrierLaws] (result on the safe
    side of the exact one; `strict' only when strictly so); so = Info::store_open.
    [mem C so x I]: the rational x belongs to the interval denoted by I (ends, OPEN and SPECIAL bits). *)
-From Coq Require Import ZArith QArith Bool Lia Lqa.
-From PPLV Require Import Itv.Boundary Itv.Interval Itv.QCarrier Itv.Sound Itv.Arith Itv.Encl Itv.Sets Itv.Univ Itv.Exact Itv.Defect.
+From Coq Require Import ZArith QArith Qabs Qminmax Bool List Lia Lqa.
+From PPLV Require Import Itv.Boundary Itv.Interval Itv.QCarrier Itv.Sound Itv.Arith Itv.Encl Itv.Sets Itv.Univ Itv.Exact Itv.Defect Itv.LinForm Itv.RelErr Itv.FloatErr gen.Facts_Float.
+Import ListNotations.
 Local Open Scope Q_scope.
 
 (* the exact rational carrier (mpq_class) satisfies the laws, with equality *)
@@ -142,7 +143,96 @@ Theorem add_exact_partial : forall C so, ExactLaws C -> forall z I J w,
   (exists x y, in_upper C so (upper I) x /\ in_upper C so (upper J) y /\ w == x + y).
 Proof. exact Exact.add_exact_ends. Qed.
 
+(* ---- linear forms with interval coefficients (Linear_Form<C>) ----------------------------------
+   [lf_mem C so rho f v]: v is a value the form f can take at the concrete store rho (some choice of
+   a point in every coefficient).  z0: content of freshly built entries (arbitrary). *)
+
+Theorem linform_add_encloses : forall C so, CarrierLaws C -> forall z0 rho f1 f2 v1 v2,
+  lf_mem C so rho f1 v1 -> lf_mem C so rho f2 v2 -> lf_mem C so rho (lf_add C so z0 f1 f2) (v1 + v2).
+Proof. exact LinForm.linform_add_encloses. Qed.
+
+Theorem linform_add_assign_encloses : forall C so, CarrierLaws C -> forall rho f1 f2 v1 v2,
+  lf_mem C so rho f1 v1 -> lf_mem C so rho f2 v2 -> lf_mem C so rho (lf_add_assign C so f1 f2) (v1 + v2).
+Proof. exact LinForm.linform_add_assign_encloses. Qed.
+
+Theorem linform_sub_encloses : forall C so, CarrierLaws C -> forall z0 rho f1 f2 v1 v2,
+  lf_mem C so rho f1 v1 -> lf_mem C so rho f2 v2 -> lf_mem C so rho (lf_sub C so z0 f1 f2) (v1 - v2).
+Proof. exact LinForm.linform_sub_encloses. Qed.
+
+Theorem linform_neg_encloses : forall C so, CarrierLaws C -> forall rho f v,
+  lf_mem C so rho f v -> lf_mem C so rho (lf_neg C so f) (- v).
+Proof. exact LinForm.linform_neg_encloses. Qed.
+
+Theorem linform_scale_encloses : forall C so, CarrierLaws C -> forall rho n f v k,
+  mem C so k n -> lf_mem C so rho f v -> lf_mem C so rho (lf_scale C so n f) (v * k).
+Proof. exact LinForm.linform_scale_encloses. Qed.
+
+Theorem linform_div_encloses : forall C so, CarrierLaws C -> forall rho n f v k,
+  mem C so k n -> ~ k == 0 -> lf_mem C so rho f v -> lf_mem C so rho (lf_div C so n f) (v / k).
+Proof. exact LinForm.linform_div_encloses. Qed.
+
+Theorem intervalize_encloses : forall C so, CarrierLaws C -> forall z0 rho st f v R,
+  Forall2 (fun x s => mem C so x s) rho st -> lf_mem C so rho f v ->
+  intervalize C so z0 f st = Some R -> mem C so v R.
+Proof. exact LinForm.intervalize_encloses. Qed.
+
+(* relative_error: any error of magnitude at most ulp * |v| is a value of the form it builds *)
+Theorem relative_error_encloses : forall C so, CarrierLaws C ->
+  forall (cabsmax : cT C -> cT C -> cT C) (clb clbn : cT C) (ulp : Q),
+  (forall a b, cval C (cabsmax a b) == Qmax (Qabs (cval C a)) (Qabs (cval C b))) ->
+  cval C clb == ulp -> cval C clbn == - ulp -> 0 <= ulp ->
+  forall rho f v e,
+  Forall (bounded C) f -> lf_mem C so rho f v -> Qabs e <= ulp * Qabs v ->
+  lf_mem C so rho (relative_error C so cabsmax clb clbn f) e.
+Proof. exact RelErr.relative_error_encloses. Qed.
+
+(* ---- rounding error of the analysed machine ---------------------------------------------------- *)
+
+(* any rounding mode: the result is a representable neighbour; normal range; one unit in the last place *)
+Theorem rounding_one_ulp : forall p emin : Z, (0 <= p)%Z -> forall x r e,
+  (emin + p <= e)%Z -> pow2 e <= Qabs x -> Qabs x < pow2 (e + 1) ->
+  rounding_of p emin x r -> Qabs (r - x) <= pow2 (- p) * Qabs x.
+Proof. exact FloatErr.one_ulp. Qed.
+
+(* the exponent expression of the SOURCE (regenerated into gen/Facts_Float.v) gives MANTISSA_BITS for
+   every binary format of the switch, and lb is 2^-that *)
+Theorem rel_error_power_binary :
+  rel_error_lb_is_2_to_minus_u_power = true /\
+  forallb (fun f => negb (binary f) ||
+                    (rel_error_u_power (ff_base f) (ff_mantissa_bits f) =? ff_mantissa_bits f)%Z)
+          relative_error_formats = true.
+Proof. exact FloatErr.rel_error_power_binary. Qed.
+
+(* hence, for the binary formats, the relative error the code encodes covers every rounding mode;
+   the statement for ALL formats of the switch ([relative_error_covers_rounding_full], which includes
+   the base-16 IBM format) is not proved *)
+Theorem relative_error_covers_rounding_partial :
+  forall f, In f relative_error_formats -> binary f = true -> relative_error_covers_rounding f.
+Proof. exact FloatErr.relative_error_covers_rounding_binary. Qed.
+
 (* hypotheses are satisfiable *)
+Example rounding_inhabited : rounding_of 1 (-2) 1 1.
+Proof.
+  assert (R : repr 1 (-2) 1) by (exists 1%Z, 0%Z; split; [lia|split; [vm_compute; discriminate|reflexivity]]).
+  split; auto. left. split; [lra|]. intros f _ H. exact H.
+Qed.
+Example binade_inhabited : ((-2) + 1 <= 0)%Z /\ pow2 0 <= Qabs 1 /\ Qabs 1 < pow2 (0 + 1).
+Proof. split; [lia|]. split; vm_compute; intuition discriminate. Qed.
+Example relerr_params_inhabited :
+  exists (cabsmax : cT QC -> cT QC -> cT QC) (clb clbn : cT QC) (ulp : Q),
+    (forall a b, cval QC (cabsmax a b) == Qmax (Qabs (cval QC a)) (Qabs (cval QC b))) /\
+    cval QC clb == ulp /\ cval QC clbn == - ulp /\ 0 <= ulp.
+Proof.
+  exists (fun a b => Qmax (Qabs a) (Qabs b)), (1 # 8), (- (1 # 8)), (1 # 8).
+  split; [intros; reflexivity|]. split; [reflexivity|]. split; [reflexivity|]. discriminate.
+Qed.
+Example lf_mem_inhabited : lf_mem QC true [2] [fin 1 false 1 false; fin 0 false 1 false] (1 + (1 # 2) * 2).
+Proof.
+  exists [1; 1 # 2]. split.
+  - constructor; [split; vm_compute; intuition discriminate|].
+    constructor; [split; vm_compute; intuition discriminate|constructor].
+  - vm_compute. reflexivity.
+Qed.
 Example exact_inhabited : exists C, CarrierLaws C /\ ExactLaws C.
 Proof. exists QC. split; [exact QC_laws | exact QC_exact]. Qed.
 Example nonempty_inhabited : is_empty QC true (fin (-1) true 2 false) = false.
